@@ -2,6 +2,9 @@
    Correspondence: for every (module, prefix) observed in a store, the prediction of the extracted
    table + model ([Genesis.predict], [Genesis.counter_restore]) is compared with what the real
    ExportGenesis -> JSON -> InitGenesis did (identical / zero records / empty / recomputed counter).
+   (No prefix is predicted "zero records" since the repair of C20-F1, none of the collector is "at
+   risk" since the repair of C20-F12: on an unrepaired tree the regenerated table predicts them again
+   and the table theorem of Properties/C20.v fails.)
    Predicate: the extracted [holds_C20_prefix] on the implementation's two dumps and
    [holds_C20_step] on every continuation step; failures are classified by [kf_C20_class]. *)
 open Conv
